@@ -99,8 +99,10 @@ def parseDR (s : String) : DRReply :=
 def showLog (l : List (Nat × List Nat)) : String :=
   if l.isEmpty then "-" else ";".intercalate (l.map (fun g => s!"{g.1}:" ++ "/".intercalate (g.2.map toString)))
 
-def step (_ : Unit) (t : List String) : Unit × String :=
-  match t with
+/-- `b0` (trailing marker: the harness ran the line on a cluster with broker ids 0,1,2) means nothing to the
+    model, which speaks about abstract broker ids -/
+def step (_ : Unit) (t0 : List String) : Unit × String :=
+  match (if t0.getLast? = some "b0" then t0.dropLast else t0) with
   | ["retry", b, max, script] =>
     (match parseBudget (head1 b) with
      | none => ((), "bad-op")
